@@ -228,3 +228,18 @@ reg('C14',
     'call site or input (metal amide -> dative rule adds hydrogens; azoxy-type two-pass rules; eta5-Cp numbering; one tautomer KeyError).',
     'bounded exhaustive enumeration of molecules x operations x numberings on the real implementation, relational oracle',
     'DESIGN.md s5 C14')
+
+reg('C16',
+    'Synthetic Transformer templates, one per patcher branch and per combination the property lists (identity, deletion, new atoms, element change, '
+    'charge and radical setting, bond order up/down, masked atoms next to deleted atoms, deletion with detached fragments, cleavage, bond formation '
+    'between components, element lists, any-atom reuse), are applied to 30 small molecules under three numberings; for EVERY match the product is '
+    'compared with an independent plain-graph edit model (which atoms disappear incl. detached fragments unless masked, attributes of named atoms, '
+    'replacement bonds, untouched atoms/bonds, fresh numbers for new atoms), product count = match count (distinct image sets with the filter), '
+    'unique numbers, configuration of untouched stereocentres, identity template returns the input. Multi-reactant Reactor: 4 reactions x reactant '
+    'pairs with colliding atom numbers x spectators x all reactant orders x renumbering x one_shot on/off: unique atom numbers over all products, '
+    'spectators unchanged, valence-valid products, product set independent of order and numbering. Built-in deprotection groups and apply_all on '
+    'protected molecules: unique numbers, valence validity, numbering independence.',
+    'Trusted: the edit model in vf/props/c16.py; matches come from the library matcher (C07/C08). Hydrogen counts of products are not modelled. The '
+    'prepared reaction collections (reactions/, retro/) are exercised only through the Reactor class they are built on.',
+    'bounded exhaustive enumeration of templates x molecules x matches on the real implementation vs an independent edit model',
+    'DESIGN.md s5 C16')
